@@ -484,3 +484,113 @@ _inst_before_lemmas = instances
 def instances(tier):       # noqa: F811
     from .common import lemma_instance
     return _inst_before_lemmas(tier) + [lemma_instance('C11', 'mvdr', 'lemma:mvdr-optimality-from-the-normal-equation')]
+
+
+# ----------------------------------------------------------------------------- bounded: all shapes of the quantifier against
+# explicit per-bin linear algebra (D 2..8, F 1..32 including F == D, K 1..3, condition numbers up to 1e6)
+def shapes_bounded_instance():
+    from pb_bss.extraction import beamformer as bf
+
+    def make(B):
+        return {'fn': B.choose('fn', ['mvdr', 'mvdr', 'lcmv', 'souden', 'wmwf']), 'D': B.choose('D', [2, 3, 4, 6, 8]), 'F': B.choose('F', ['1', 'D', '5', '32']),
+                'K': B.choose('K', [None, 1, 2, 3]), 'cond': B.choose('cond', [1e1, 1e3, 1e6]), 'mu': B.choose('mu', [0, 0.0, 0.5, 1.0, 100.0]),
+                'seed': B.choose('seed', list(range(5000))), 'd': B.given('d', np.zeros(1))}
+
+    def hpd(rng, F, D, cond):
+        A = rng.normal(size=(F, D, D)) + 1j * rng.normal(size=(F, D, D))
+        Q = np.linalg.qr(A)[0]
+        ev = np.exp(rng.uniform(0, np.log(cond), size=(F, D)))
+        ev[:, 0], ev[:, -1] = 1.0, cond
+        return (Q * ev[:, None, :]) @ np.conj(np.swapaxes(Q, -1, -2))
+
+    def call(inp):
+        rng = np.random.RandomState(inp['seed'])
+        D = inp['D']
+        F = {'1': 1, 'D': D, '5': 5, '32': 32}[inp['F']]
+        K, fn = inp['K'], inp['fn']
+        Pn = hpd(rng, F, D, inp['cond'])
+        res = {'fn': fn, 'Pn': Pn}
+        if fn == 'mvdr':
+            a = rng.normal(size=((F, D) if K is None else (K, F, D))) + 1j * rng.normal(size=((F, D) if K is None else (K, F, D)))
+            res.update(a=a, w=bf.get_mvdr_vector(a, Pn))
+        elif fn == 'lcmv':
+            Kc = K or 2
+            Kc = min(Kc, D)
+            a = rng.normal(size=(Kc, F, D)) + 1j * rng.normal(size=(Kc, F, D))
+            r = rng.normal(size=(Kc,))
+            res.update(a=a, r=r, w=bf.get_lcmv_vector(a, r, Pn))
+        else:
+            a = rng.normal(size=(F, D)) + 1j * rng.normal(size=(F, D))
+            sig = rng.uniform(0.5, 2.0, size=(F,))
+            Px = sig[:, None, None] * a[:, :, None] * np.conj(a[:, None, :])
+            ref = int(rng.randint(0, D))
+            res.update(a=a, Px=Px, ref=ref)
+            if fn == 'souden':
+                res['w'] = bf.get_mvdr_vector_souden(Px, Pn, ref_channel=ref)
+            else:
+                res['mu'] = inp['mu']
+                res['w'] = bf.get_wmwf_vector(Px, Pn, reference_channel=ref, distortion_weight=inp['mu'])
+        return res
+
+    def ensures(sp, inp, out):
+        fn, Pn, w = out['fn'], out['Pn'], np.asarray(out['w'])
+        F, D = Pn.shape[0], Pn.shape[-1]
+        tol = dict(rtol=1e-6, atol=1e-9)
+        if fn == 'mvdr':
+            a = out['a']
+            yield 'shape', bool(w.shape == a.shape)
+            if w.shape != a.shape:
+                return
+            a2, w2 = a.reshape(-1, F, D), w.reshape(-1, F, D)
+            ok_c = ok_v = ok_opt = True
+            rng = np.random.RandomState(0)
+            for k in range(a2.shape[0]):
+                for f in range(F):
+                    x = np.linalg.solve(Pn[f], a2[k, f])
+                    ref = x / (np.conj(a2[k, f]) @ x)
+                    ok_v &= bool(np.allclose(w2[k, f], ref, **tol))
+                    ok_c &= bool(abs(np.conj(w2[k, f]) @ a2[k, f] - 1) < 1e-7)
+                    # a competing distortionless vector has no less noise power
+                    v = rng.normal(size=D) + 1j * rng.normal(size=D)
+                    v = w2[k, f] + (v - a2[k, f] * (np.conj(a2[k, f]) @ v) / (np.conj(a2[k, f]) @ a2[k, f]))     # v^H a = 1 kept
+                    pw, pv = (np.conj(w2[k, f]) @ Pn[f] @ w2[k, f]).real, (np.conj(v) @ Pn[f] @ v).real
+                    ok_opt &= bool(pw <= pv * (1 + 1e-9))
+            yield 'distortionless', ok_c
+            yield 'equals-per-bin-closed-form (own noise PSD of the bin)', ok_v
+            yield 'no-distortionless-competitor-has-less-noise-power', ok_opt
+        elif fn == 'lcmv':
+            a, r = out['a'], out['r']
+            yield 'shape', bool(w.shape == (F, D))
+            if w.shape != (F, D):
+                return
+            ok = True
+            for f in range(F):
+                for k in range(a.shape[0]):
+                    ok &= bool(abs(np.conj(w[f]) @ a[k, f] - r[k]) < 1e-6 * max(1.0, abs(r[k])))
+            yield 'every-linear-constraint-met', ok
+        else:
+            a, Px, refc = out['a'], out['Px'], out['ref']
+            yield 'shape', bool(w.shape == (F, D))
+            if w.shape != (F, D):
+                return
+            ok = True
+            for f in range(F):
+                M = np.linalg.solve(Pn[f], Px[f])
+                if fn == 'souden':
+                    refv = M[:, refc] / np.trace(M)
+                else:
+                    refv = np.linalg.solve(Px[f] + out['mu'] * Pn[f], Px[f])[:, refc] if out['mu'] != 0 else M[:, refc] / np.trace(M)
+                ok &= bool(np.allclose(w[f], refv, rtol=1e-5, atol=1e-8))
+                if fn == 'souden':
+                    ok &= bool(abs(np.conj(w[f]) @ a[f] - a[f][refc]) < 1e-6 * max(1.0, abs(a[f][refc])))      # w^H a = a_ref
+            yield 'equals-per-bin-closed-form[%s]' % fn, ok
+
+    return Instance('C11', BF + 'get_*_vector', 'bounded-all-shapes-against-per-bin-linear-algebra', make, call, ensures, mode='bounded',
+                    bounded_n=150, frame=False)
+
+
+_inst_before_bounded = instances
+
+
+def instances(tier):       # noqa: F811
+    return _inst_before_bounded(tier) + [shapes_bounded_instance()]
